@@ -108,9 +108,18 @@ def c07(chk):
         if any(isinstance(x, float) for x in va):
             return True
         return not vec_close(va, vm, tol)[0]
-    suspects = [i for i, c in enumerate(cases) if 'cost' in cpp[f'{i}.v'] and
-                (far(fv(cpp[f'{i}.v']['cost']), fv(mq[f'{i}.v']['cost']), GTOL[c.order]) or
-                 far(fv(cpp[f'{i}.v']['grad']), fv(mq[f'{i}.v']['grad']), GTOL[c.order]))]
+    def blocks_of(c):
+        vars_, doff, total = c.layout()
+        return [('time', list(range(0, c.n))), ('spatial', list(range(c.n, doff))), ('derivative', list(range(doff, total)))]
+
+    def any_far(i, c):
+        a, m = cpp[f'{i}.v'], mq[f'{i}.v']
+        if far(fv(a['cost']), fv(m['cost']), GTOL[c.order]) or far(fv(a['grad']), fv(m['grad']), GTOL[c.order]):
+            return True
+        ga, gm = fv(a['grad']), fv(m['grad'])
+        # the oracle below judges every block of the gradient on its own scale: so must the choice of the yardstick runs
+        return any(rg and far([ga[q] for q in rg], [gm[q] for q in rg], GTOL[c.order]) for _, rg in blocks_of(c))
+    suspects = [i for i, c in enumerate(cases) if 'cost' in cpp[f'{i}.v'] and any_far(i, c)]
     mf = run_groups_model([cases[i].setup_lines(i, 'F') + [cases[i].eval_line(f'{i}.v', 'F')] for i in suspects]) if suspects else {}
     chk.notes['float_yardstick_runs'] = len(suspects)
 
@@ -1045,7 +1054,10 @@ def c17(chk):
                 chk.cell('toTau', '>1' if T > 1 else '<=1', int(math.log10(T)))
                 if a['r'] != m['r']:
                     d = abs(float(va) - float(vm))
-                    if d > 4 * ulp(float(vm)) + 1e-300:
+                    # the square root's argument (2/T - 1 resp. 2T - 1) is rounded absolutely: near T = 1 the result is only
+                    # determined to a few 1e-16 *absolute* (an equivalent formula such as sqrt((2-T)/T) differs there by
+                    # many ulp of a tiny tau) - negative control B07
+                    if d > 4 * ulp(float(vm)) + 8 * 2.0 ** -53 * max(1.0, abs(float(vm))):
                         chk.mismatch('toTau differs from the IEEE-double instance of the model (same operations)', {'T': T}, {'impl': float(va), 'model': float(vm)})
                 # inverse: toTime(toTau(T)) = T up to the rounding of the square root (relative, conditioned by dT/dtau)
                 back = ol.to_time(0, 0, float(va))
